@@ -30,6 +30,12 @@ impl Framed {
         }
     }
 
+    /// Verification hook: receive buffer contents and current spare capacity.
+    #[cfg(feature = "verif_hooks")]
+    pub fn verif_buffer(&self) -> (&[u8], usize) {
+        (&self.buffer[..], self.buffer.capacity() - self.buffer.len())
+    }
+
     /// Modifies whether or not to verify the Insim version
     pub fn verify_version(&mut self, verify_version: bool) {
         self.verify_version = verify_version;
